@@ -37,6 +37,24 @@ Fixpoint gpub_ok (w : view) (n k : Z) (cs qlens : list Z) : bool :=
   | _, _ => false
   end.
 
+(* probes: a registered probe gets every copy that fits, an unregistered one nothing; while a
+   probe's Subscribe / Unsubscribe of that very name is held inside the global centre either is
+   acceptable - once the call has returned (VDone) the outcome must be the sequential one,
+   whatever the other centres did in between *)
+Definition held (w : view) (c n : Z) : bool :=
+  match aget c (pp w) with Some (n', _) => n' =? n | None => false end.
+Fixpoint pgpub_ok (w : view) (n k : Z) (cs qlens : list Z) : bool :=
+  match cs, qlens with
+  | [], [] => true
+  | c :: cr, q :: qr =>
+      let old := qlen w c in
+      let full := Z.min QCAP (old + k) in
+      (if held w c n then (q =? old) || (q =? full)
+       else if pair_mem c n (pr w) then q =? full else q =? old)
+      && pgpub_ok w n k cr qr
+  | _, _ => false
+  end.
+
 Definition queue_eqb (a b : queue) : bool := list_eqb (pair_eqb Z.eqb zlist_eqb) a b.
 
 Definition ok_ev (w : view) (e : ev) : bool :=
@@ -90,6 +108,9 @@ Definition ok_ev (w : view) (e : ev) : bool :=
      | VStart c => can_start w c
      | VStop c => can_stop w c
      | VLoopEnd c => loop_alive w c && zmem c (stopped w)   (* a loop ends only after Stop() *)
+     | VReg c _ | VUnreg c _ | VPark c _ _ => probe_free w c
+     | VDone c => match aget c (pp w) with Some _ => true | None => false end
+     | VProbe n _ k qlens => (0 <=? k) && pgpub_ok w n k probe_centres qlens
      | VDeadlock => false   (* blocking is only legal right after a send on a full queue *)
      | VOp | VSubFail | VUnsub _ _ _ | VUnsubCb _ _ _ | VAmbig | VClear _ | VEnq _ _ _ | VNop => true
      end).
